@@ -8,6 +8,7 @@ import (
 	"runtime/debug"
 	"sort"
 	"strconv"
+	"strings"
 )
 
 type propCheck struct {
@@ -30,6 +31,7 @@ func main() {
 	replay := flag.String("replay", "", "violation file to re-evaluate")
 	list := flag.Bool("list", false, "list properties")
 	selftest := flag.String("selftest", "", "run the self-test catalogue for a property (or 'all')")
+	props := flag.String("props", "", "comma-separated property ids (or 'all'): analyse several properties over one loaded program (used by the self tests; the registered commands use -prop)")
 	flag.Parse()
 
 	if *list {
@@ -70,6 +72,10 @@ func main() {
 			code = runSelftest(*selftest, *repo, *verif)
 			return
 		}
+		if *props != "" {
+			code = runProps(*props, *repo, *verif, *tier, seed)
+			return
+		}
 		pc := registry[*prop]
 		if pc == nil {
 			fmt.Fprintf(os.Stderr, "unknown property %q\n", *prop)
@@ -104,6 +110,43 @@ func runProp(id string, pc *propCheck, repo, verif, tier string, seed int) int {
 		thoroughExtras(id, pc, repo, verif, r, extra)
 	}
 	return r.Finish(verif, p, pc.Explanation, extra)
+}
+
+// runProps analyses several properties over one loaded program.
+func runProps(list, repo, verif, tier string, seed int) int {
+	var ids []string
+	if list == "all" {
+		for id := range registry {
+			ids = append(ids, id)
+		}
+	} else {
+		ids = strings.Split(list, ",")
+	}
+	sort.Strings(ids)
+	p := Load(LoadOpts{RepoDir: repo, NeedSSA: true})
+	worst := 0
+	for _, id := range ids {
+		pc := registry[id]
+		if pc == nil {
+			fmt.Fprintf(os.Stderr, "unknown property %q\n", id)
+			return 2
+		}
+		code := 2
+		func() {
+			defer func() {
+				if e := recover(); e != nil {
+					fmt.Fprintf(os.Stderr, "analysis panic in %s: %v\n%s\n", id, e, debug.Stack())
+				}
+			}()
+			r := NewReport(id, tier, seed)
+			pc.Run(p, r)
+			code = r.Finish(verif, p, pc.Explanation, map[string]any{})
+		}()
+		if code > worst {
+			worst = code
+		}
+	}
+	return worst
 }
 
 // runReplay re-evaluates the property and reports whether the recorded
